@@ -144,7 +144,9 @@ private:
     size_t i = bitPos / WLS;
     size_t j = bitPos % WLS;
 
-    size_t mask = ~(~((size_t)0) << bitsField) << j;
+    // (a shift by the word size is undefined: 64-bit fields use the full mask)
+    size_t mask =
+        (bitsField >= WLS ? ~((size_t)0) : ~(~((size_t)0) << bitsField)) << j;
     data[i] = (data[i] & ~mask) | (value << j);
 
     if (j + bitsField > WLS) {
